@@ -5,13 +5,14 @@ P=$1; V=$2; FEAT=${3:-}
 WT=/tmp/wt-$P; SD=/tmp/seed-$P/$V; OUT=/tmp/seed-$P/$V/confirm.log
 cd $WT || exit 9
 git checkout -q -- . ; git clean -qfd -e target
+sumres() { grep -E "^test result" | awk '{p+=$4; f+=$6} END {print "passed=" p " failed=" f}'; }
 {
 echo "== apply"; git apply $SD/patch.diff || { echo APPLY-FAILED; exit 9; }
-echo "== suite with change"; cargo test --workspace --offline 2>&1 | grep -E "^test result|FAILED|failed|error" | head -20
+echo -n "== suite with change: "; cargo test --workspace --offline 2>&1 | sumres
 cp $SD/demo.rs tests/seed_demo.rs
-echo "== demo with change (expect FAIL)"; cargo test --offline $FEAT --test seed_demo 2>&1 | grep -E "^test |^test result|error(\[|:)" | head -20
+echo -n "== demo with change (expect failed>0): "; cargo test --offline $FEAT --test seed_demo 2>&1 | sumres
 git checkout -q -- . 
-echo "== demo without change (expect PASS)"; cargo test --offline $FEAT --test seed_demo 2>&1 | grep -E "^test result|error(\[|:)" | head -20
+echo -n "== demo without change (expect failed=0): "; cargo test --offline $FEAT --test seed_demo 2>&1 | sumres
 rm -f tests/seed_demo.rs; git clean -qfd -e target
 } > $OUT 2>&1
-echo "confirm $P/$V done"; cat $OUT
+echo "confirm $P/$V:"; cat $OUT
